@@ -78,6 +78,7 @@ def serve_cases(prop, tier, seed):
     elif prop == "C07":
         g.fam_body(cb, n=6000 * k, extra=2)
     elif prop == "C12":
+        g.fam_conv(cb)
         g.fam_body(cb, n=3000 * k, extra=2)
         g.fam_range_multi(cb, n=500 * k, scripts=True)
         g.fam_cond(cb, n=300 * k, long_lists=False)
@@ -100,10 +101,15 @@ def serve_cases(prop, tier, seed):
         g.fam_range_big(cb, n_pairs=200 * k, pair=True)
         g.fam_wide(cb, n=200 * k, pair=True)
     elif prop == "C20":
+        g.fam_conv(cb)
         g.fam_body(cb, n=6000 * k, extra=4)
         g.fam_range_multi(cb, n=200 * k, scripts=True, extra=4)
         g.fam_cond(cb, n=200 * k, long_lists=False, extra=4)
         g.fam_env(cb, n=300 * k, extra=4)
+    # every check also runs a cross-section of all families
+    g.fam_mix(cb, n=2500 * (2 if T else 1), pair=(prop == "C15"), extra=4 if prop == "C20" else 1)
+    if prop in ("C01", "C03", "C06", "C13"):
+        g.fam_overflow(cb, n=300 * k)
     return cb.cases
 
 
@@ -154,7 +160,7 @@ for _p in ALL_SERVE:
 # ------------------------------------------------------------------ runner
 
 def case_key(c):
-    d = {k: c.get(k) for k in ("method", "abs", "scripts", "dscript", "echo", "pair", "ops", "cfg", "prog", "sched")
+    d = {k: c.get(k) for k in ("method", "abs", "scripts", "dscript", "echo", "pair", "ops", "cfg", "prog", "sched", "conv", "len")
          if k in c}
     e = c.get("ent")
     if e:
@@ -234,6 +240,29 @@ def load_cases_by_id(result_dir):
             for c in vlib.read_ndjson(p):
                 out[c["id"]] = c
     return out
+
+
+def unhooked_sync_sites():
+    """Lock / wake sites in chunker.rs that are not immediately preceded by a yield point (the
+    Probe's own two lock sites excluded).  Interleavings are explored at hooked sites only."""
+    try:
+        lines = open("/repo/src/chunker.rs").read().splitlines()
+    except OSError:
+        return -1
+    n = 0
+    in_probe = False
+    for i, l in enumerate(lines):
+        if l.startswith("impl<E> Probe<E>"):
+            in_probe = True
+        elif l.startswith("}") and in_probe:
+            in_probe = False
+        if in_probe or l.strip().startswith("//"):
+            continue
+        if ".lock()" in l or ".wake()" in l or ".wake_by_ref()" in l:
+            ctx = "\n".join(lines[max(0, i - 6):i])
+            if "yield_point(" not in ctx:
+                n += 1
+    return n
 
 
 def run_check(prop, tier, seed):
@@ -357,6 +386,12 @@ def run_check(prop, tier, seed):
         "known_findings_hit": sorted(known_hit),
         "enforce": [prop],
     }
+    if any(r["engine"] == "stream" for r in trace_results):
+        cov["unhooked_sync_sites"] = unhooked_sync_sites()
+        if cov["unhooked_sync_sites"] > 0:
+            vlib.log("  note: %d lock/wake site(s) in src/chunker.rs without a yield point: interleavings at those "
+                     "sites are not explored" % cov["unhooked_sync_sites"])
+        cov.update(stream_plan.meta.get(prop, {}))
     wall = time.time() - t00
     vlib.write_evidence(prop, tier, seed, cov, wall, len(new_viol),
                         ["TLC 1.8.0 and the CommunityModules Json/IOUtils modules are correct",
